@@ -128,7 +128,7 @@ def load_known():
     return d
 
 
-def run_property(prop: str, tier: str, tree: core.Tree | None = None, rules=None, quiet=False, write=True):
+def run_property(prop: str, tier: str, tree: core.Tree | None = None, rules=None, quiet=False, write=True, extra_cov=None):
     """Run every rule registered for `prop`. Returns (exit_code, summary dict)."""
     t0 = time.time()
     seed = int(os.environ.get("VERIF_SEED", "0") or 0)
@@ -198,7 +198,7 @@ def run_property(prop: str, tier: str, tree: core.Tree | None = None, rules=None
             "lines": lines,
         }
         if write:
-            write_evidence(prop, tier, seed, results, violations, known_present, stats, time.time() - t0, tree)
+            write_evidence(prop, tier, seed, results, violations, known_present, stats, time.time() - t0, tree, extra_cov)
         return code, summary
     except core.AnalysisError as e:
         out(f"ANALYSIS-ERROR property={prop} {e}")
@@ -216,7 +216,7 @@ LEVELS = {"C19": "model_checking"}
 TRUSTED = {}
 
 
-def write_evidence(prop, tier, seed, results, violations, known_present, stats, wall, tree):
+def write_evidence(prop, tier, seed, results, violations, known_present, stats, wall, tree, extra_cov=None):
     os.makedirs(EVIDENCE_DIR, exist_ok=True)
     insts = [dict(i, rule=rec.rdef.rid) for rec in results for i in rec.instances]
     distinct = {(i["rule"], i["site"], i["construct"], i["obligation"]) for i in insts if i["nontrivial"]}
@@ -265,6 +265,8 @@ def write_evidence(prop, tier, seed, results, violations, known_present, stats, 
         "new_violations": [f.as_dict() for f in violations],
         "exhaustive": True,
     }
+    if extra_cov:
+        cov.update(extra_cov)
     for rec in results:
         for k in ("states", "transitions", "traces_validated_against_impl"):
             if k in rec.extra:
